@@ -1,7 +1,7 @@
 """C09 - Lock: mutual exclusion, re-entrancy, FIFO hand-off, always released."""
 import itertools
 from ..run import run_one
-from ..oracles import kernel_health
+from ..oracles import kernel_health, containment
 from .. import faults as F
 
 PROPERTY = 'C09'
@@ -133,6 +133,7 @@ def check_exec(program, faults=()):
     ctx = run_one(program, faults)
     msgs, waited = lock_model(ctx)
     msgs += kernel_health(ctx)
+    msgs += containment(ctx, program)
     if ctx.outcome is not None:
         msgs.append('run() raised %r' % (ctx.outcome,))
     recs = {(k, a): (t, i) for i, (k, a, pc, t, d) in enumerate(ctx.log) if a == 'root' and pc == (2,)}
